@@ -128,11 +128,13 @@ static void vg_any_shared(void)
 	__CPROVER_assume(vg_sh.fs_last.tv_sec < vg_now.tv_sec || (vg_sh.fs_last.tv_sec == vg_now.tv_sec && vg_sh.fs_last.tv_nsec <= vg_now.tv_nsec));   /* timestamps come from the clock */
 	vg_sh.my_fs = &vg_myfs; vg_myfs.user = &vg_sh;
 	vg_nreaders = nondet_u32(); __CPROVER_assume(vg_nreaders <= NR);
+	/* shared-state invariant: before the first reload (timestamp still zero) nothing is loaded and a reload is pending (mtbl_fileset_init) */
+	if (vg_sh.fs_last.tv_sec == 0 && vg_sh.fs_last.tv_nsec == 0) __CPROVER_assume(vg_nreaders == 0 && vg_sh.reload_needed);
 	for (unsigned i = 0; i < NR; i++) { vg_readers[i].idx = i; vg_readers[i].gen = vg_gen; vg_rnull[i] = nondet_bool(); vg_fname_ok[i] = nondet_bool(); vg_reader_ok[i] = nondet_bool(); }
 }
 static void vg_check_current(struct mtbl_fileset *f, const char *u)
 {
-	VG_P("C07", f->fs_last.tv_sec == vg_sh.fs_last.tv_sec && f->fs_last.tv_nsec == vg_sh.fs_last.tv_nsec, "after the call the handle carries the shared set's timestamp");
+	VG_P("C07", f->fs_last.tv_sec == f->shared_fs->fs_last.tv_sec && f->fs_last.tv_nsec == f->shared_fs->fs_last.tv_nsec, "after the call the handle carries the shared set's timestamp");
 	VG_P("C07", f->merger != NULL && f->merger->alive && f->merger->gen == vg_gen, "after the call the handle's merger is built from the reader set as of the most recent reload");
 	for (unsigned i = 0; i < NR; i++) {
 		_Bool want = (i < vg_nreaders) && !vg_rnull[i] && (!f->fname_filter || vg_fname_ok[i]) && (!f->reader_filter || vg_reader_ok[i]);
@@ -200,4 +202,32 @@ void h_fileset_iter_step(void)
 	/* close */
 	vg_outer_free(vg_outer_clos);
 	VG_P("C07,C18", vg_sh.n_iters == iters0 && vg_inner_live == 0, "closing the iterator releases it and uncounts it");
+}
+
+/* ======================================================================= dup / destroy in any order */
+void h_fileset_dup_destroy(void)
+{
+	vg_any_shared();
+	/* the shared state is heap allocated (mtbl_fileset_destroy frees it with the last handle) */
+	struct shared_fileset *sh = malloc(sizeof(*sh)); *sh = vg_sh; sh->n_fs = 1; sh->my_fs = &vg_myfs; vg_myfs.user = sh;
+	struct mtbl_fileset *a = vg_any_handle(); a->shared_fs = sh; a->source = mtbl_source_init(fileset_source_iter, fileset_source_get, fileset_source_get_prefix, fileset_source_get_range, NULL, a);
+	struct mtbl_fileset_options o; o.reload_interval = nondet_u32(); o.merge = NULL; o.merge_clos = NULL; o.dupsort = NULL; o.dupsort_clos = NULL;
+	o.fname_filter = nondet_bool() ? vg_fname_filter : NULL; o.fname_filter_clos = NULL; o.reader_filter = nondet_bool() ? vg_reader_filter : NULL; o.reader_filter_clos = NULL;
+	int mergers0 = vg_mergers_live;
+	struct mtbl_fileset *b = mtbl_fileset_dup(a, &o);
+	VG_REACH("mtbl_fileset_dup returns");
+	VG_P("C07", b != NULL && b != a && b->shared_fs == sh && sh->n_fs == 2, "a dup shares the reader set of the original and is counted");
+	VG_P("C07", b->merger != NULL && b->merger != a->merger && b->fname_filter == o.fname_filter && b->reader_filter == o.reader_filter && b->reload_interval == o.reload_interval, "a dup has its own merger, filters and reload interval");
+	VG_P("C07", !(b->fs_last.tv_sec == sh->fs_last.tv_sec && b->fs_last.tv_nsec == sh->fs_last.tv_nsec) || (sh->fs_last.tv_sec == 0 && sh->fs_last.tv_nsec == 0), "a fresh dup is not current until its first reload (its empty merger is never taken for a snapshot of a loaded set)");
+	/* the dup becomes usable through the normal reload */
+	mtbl_fileset_reload(b);
+	vg_check_current(b, "");
+	/* destroy in either order */
+	_Bool in_a_first = nondet_bool();
+	struct mtbl_fileset *x = in_a_first ? a : b, *y = in_a_first ? b : a;
+	mtbl_fileset_destroy(&x);
+	VG_P("C07,C18", x == NULL && vg_myfs_destroyed == 0 && sh->n_fs == 1, "destroying one handle leaves the shared reader set to the other");
+	VG_P("C07", y->merger != NULL && y->merger->alive && y->shared_fs == sh, "the surviving handle stays valid");
+	mtbl_fileset_destroy(&y);
+	VG_P("C18", y == NULL && vg_myfs_destroyed == 1 && vg_mergers_live == mergers0 - 1, "the last handle releases the shared reader set, and every handle releases its own merger");
 }
